@@ -613,7 +613,9 @@ func run(tapeJSON json.RawMessage, res *core.Result) {
 			}
 		case "tgs", "cached":
 			if !r.OK {
-				open := afterDestroy || r.Op == "cached" || (far && (tp.Chain > 2 || tp.Cycle))
+				// chains up to 5 referrals lie inside any reasonable bound and must be followed to
+				// their end; longer ones and cycles may be cut off (the library's bound is not mirrored)
+				open := afterDestroy || r.Op == "cached" || (far && (tp.Chain > 5 || tp.Cycle))
 				if tp.Cred == "ccache" {
 					// without credentials the TGT of the cache cannot be replaced: from the last sixth of
 					// its life on (where the library tries to refresh it) requests may fail
